@@ -11,7 +11,11 @@ RULE = ("libraries built from sequences over a 12-block universe (entries with k
         "keys were edited after insertion; libraries built in code from blocks without line numbers that compare EQUAL "
         "without being identical (preambles, comments, failed blocks sharing one exception, entries/strings) or hold the very same "
         "object several times, with different comment runs above the equal blocks (all pairs of runs from a small set x "
-        "equal/same object, plus sampled longer ones), judged by value against the unique stable arrangement. distinct = "
+        "equal/same object, plus sampled longer ones), judged by value against the unique stable arrangement; libraries whose "
+        "start_line values are NOT in library order (every pair of blocks that can tie x every pair of line values from "
+        "{None, 0, 1, 2} x comment runs, sampled longer ones with shuffled / equal / missing line numbers; libraries assembled by "
+        "several parse_string calls into one Library, blocks moved by remove+add, code-built blocks added to parsed ones): "
+        "ties must follow the position in the library. distinct = "
         "distinct (sequence, order, mode, times); non-trivial = at least two blocks")
 TRUSTED = ["CPython's list.sort is a stable sort (Base/StableSort.v proves the stable sorted permutation unique, so any such "
            "sort computes the model's insertion sort); tuple comparison (int, str) is lexicographic, str by code point",
@@ -30,6 +34,17 @@ DEFAULT_ORDER = [1, 2, 0, 4, 3]
 EQ_MAIN = [2, 5, 6, 7, 0, 1]
 EQ_RUNS = [(), ((3, 0, 0),), ((4, 1, 0),), ((3, 0, 0), (4, 1, 0)), ((4, 1, 0), (3, 0, 0)), ((3, 0, 0), (3, 0, 0)),
            ((4, 2, 1), (4, 2, 1))]
+
+# "lines" streams: universe blocks (identity = raw) whose start_line is given per block, independent of the position
+LINE_VALUES = [None, 0, 1, 2]
+TIE_PAIRS = [(5, 5), (8, 8), (5, 8), (8, 5), (6, 6), (7, 7), (6, 7), (7, 6), (0, 0), (3, 3), (1, 1), (2, 2), (2, 5), (8, 9), (9, 10),
+             (10, 10), (9, 9), (0, 3), (1, 3)]
+LINE_RUNS = [(), (6,), (7, 6)]
+# "ops" stream: a library assembled by several parses into ONE Library, blocks moved by remove+add, blocks built in code added
+PIECES = ['@preamble{"pa"}\n', '\n\n@preamble{"pb"}\n', '@string{a = "x"}\n', '@string{b = "y"}\n\n', '@article{a, t = {1}}\n',
+          '@article{b,\n t = {2}\n}\n', '@article{B, t = {3}}\n', '@comment{ec}\n', '% ic one\n\n', '% ic two\n% more\n\n',
+          '@article{dupf, t = {1}, t = {2}}\n', '@article{broken, t = {1\n', '@article{, t = {e}}\n', '@preamble{"pa"\n',
+          '@misc{a, u = {4}}\n', '\n']
 
 
 def subperms(xs):
@@ -116,6 +131,58 @@ def generate(rng, tier):
                 items.append([rng.choice([2, 2, 5, 5, 0, 1, 6, 7]), rng.randint(0, 1) if rng.random() < 0.3 else 0, rng.randint(0, 1)])
         add_eq("equal-sampled", items, rng.choice(all_orders), 1 if rng.random() < 0.7 else 0, times=rng.choice([1, 1, 2]),
                line=rng.choice([None, None, 0]))
+    # start_line values that are NOT in library order (equal, decreasing, None mixed with numbers): stability follows the
+    # position in the library, never the line number.  Every pair of blocks that can tie x every pair of line values.
+    def add_lines(stream, seq, lines, order, preserve, times=1):
+        cases.append({"stream": stream, "input": {"seq": seq, "lines": lines, "order": order, "preserve": bool(preserve),
+                                                   "times": times}})
+    for u1, u2 in TIE_PAIRS:
+        for l1 in LINE_VALUES:
+            for l2 in LINE_VALUES:
+                for preserve in (0, 1):
+                    runs = [((), ())] if not preserve else [((), ()), (rng.choice(LINE_RUNS[1:]), rng.choice(LINE_RUNS))]
+                    for r1, r2 in runs:
+                        seq = list(r1) + [u1] + list(r2) + [u2]
+                        # comments carry line numbers of their own, in or out of step with the block below them
+                        lines = [rng.choice(LINE_VALUES) for _ in r1] + [l1] + [rng.choice(LINE_VALUES) for _ in r2] + [l2]
+                        ords = [[], DEFAULT_ORDER] if quick else [[], DEFAULT_ORDER, rng.choice(all_orders), rng.choice(all_orders)]
+                        for order in ords:
+                            add_lines("lines-pairs", seq, lines, order, preserve)
+    n_l = 500 if quick else 20000
+    for _ in range(n_l):
+        seq = rand_seq(rng, maxlen + 1, 2)
+        if rng.random() < 0.5:
+            seq = [rng.choice([5, 5, 8, 6, 7, 0, 3]) if rng.random() < 0.6 else u for u in seq]      # many blocks that tie
+        n = len(seq)
+        mode = rng.randrange(5)
+        if mode == 0:
+            lines = rng.sample(range(n), n)                                   # a permutation of the positions
+        elif mode == 1:
+            lines = [n - 1 - i for i in range(n)]                             # exactly reversed
+        elif mode == 2:
+            lines = [rng.choice([0, 1, 2]) for _ in range(n)]                 # many equal values
+        elif mode == 3:
+            lines = [rng.choice([None, None, 0, 1, 2, 3, 7]) for _ in range(n)]   # code-built blocks among numbered ones
+        else:
+            k = rng.randint(1, n - 1)
+            lines = list(range(k)) + list(range(n - k))                       # two sources, numbering restarts
+        add_lines("lines-sampled", seq, lines, rng.choice(all_orders), rng.randint(0, 1), times=rng.choice([1, 1, 1, 2]))
+    # the same through the public API: several parses into one Library, remove+add, code-built blocks added to parsed ones
+    n_o = 300 if quick else 12000
+    for _ in range(n_o):
+        ops = []
+        for _ in range(rng.randint(1, 3)):
+            ops.append(["parse", [rng.randrange(len(PIECES)) for _ in range(rng.randint(1, 4 if quick else 6))]])
+        for _ in range(rng.choice([0, 0, 1, 1, 2])):
+            pos = rng.randint(1, len(ops))
+            if rng.random() < 0.6:
+                ops.insert(pos, ["move", rng.randrange(8)])
+            else:
+                ops.insert(pos, ["add", rng.choice([5, 5, 8, 6, 7, 0, 1, 3, 9, 10]), rng.choice([None, None, 0, 1, 5])])
+        if len(ops) == 1 and rng.random() < 0.8:
+            ops.append(["move", rng.randrange(4)])
+        cases.append({"stream": "assembled", "input": {"ops": ops, "order": rng.choice(all_orders), "preserve": bool(rng.randint(0, 1)),
+                                                        "times": rng.choice([1, 1, 1, 2])}})
     return cases
 
 
@@ -131,6 +198,28 @@ def shrink(case):
         items, order = inp["items"], inp["order"]
         for i in range(len(items)):
             mk(items=items[:i] + items[i + 1:])
+        for i in range(len(order)):
+            mk(order=order[:i] + order[i + 1:])
+        if inp["times"] > 1:
+            mk(times=1)
+        return out
+    if "ops" in inp:
+        ops, order = inp["ops"], inp["order"]
+        for i in range(len(ops)):
+            mk(ops=ops[:i] + ops[i + 1:])
+            if ops[i][0] == "parse":
+                ps = ops[i][1]
+                for j in range(len(ps)):
+                    mk(ops=ops[:i] + [["parse", ps[:j] + ps[j + 1:]]] + ops[i + 1:])
+        for i in range(len(order)):
+            mk(order=order[:i] + order[i + 1:])
+        if inp["times"] > 1:
+            mk(times=1)
+        return out
+    if "lines" in inp:
+        seq, lines, order = inp["seq"], inp["lines"], inp["order"]
+        for i in range(len(seq)):
+            mk(seq=seq[:i] + seq[i + 1:], lines=lines[:i] + lines[i + 1:])
         for i in range(len(order)):
             mk(order=order[:i] + order[i + 1:])
         if inp["times"] > 1:
@@ -154,21 +243,23 @@ def shrink(case):
 
 
 # ---------------------------------------------------------------------------------------------- implementation side
-def make_block(u, i):
+def make_block(u, uid, line=-1):
+    """Universe block u with identity uid (in raw and content); start_line = uid unless a line (a number or None) is given."""
     from bibtexparser.model import (Entry, Field, String, Preamble, ExplicitComment, ImplicitComment, ParsingFailedBlock,
                                     DuplicateFieldKeyBlock, MiddlewareErrorBlock)
-    raw = "r%d" % i
+    raw = "r%d" % uid
+    i = uid if line == -1 else line
     if u in (0, 1, 2, 11):
         key = {0: "b", 1: "a", 2: "", 11: "B"}[u]
-        return Entry("article", key, [Field("t", "v%d" % i, 1)], start_line=i, raw=raw)
+        return Entry("article", key, [Field("t", "v%d" % uid, 1)], start_line=i, raw=raw)
     if u in (3, 4):
-        return String({3: "a", 4: "b"}[u], "s%d" % i, i, raw)
+        return String({3: "a", 4: "b"}[u], "s%d" % uid, i, raw)
     if u == 5:
-        return Preamble("p%d" % i, i, raw)
+        return Preamble("p%d" % uid, i, raw)
     if u == 6:
-        return ExplicitComment("ec%d" % i, i, raw)
+        return ExplicitComment("ec%d" % uid, i, raw)
     if u == 7:
-        return ImplicitComment("ic%d" % i, i, raw)
+        return ImplicitComment("ic%d" % uid, i, raw)
     if u == 8:
         return ParsingFailedBlock(Exception("boom"), i, raw)
     if u == 9:
@@ -176,6 +267,35 @@ def make_block(u, i):
     if u == 10:
         return MiddlewareErrorBlock(Entry("misc", "c", [Field("t", "1", 1)], start_line=i, raw=raw), ValueError("m"))
     raise ValueError(u)
+
+
+def assemble(ops):
+    """A library put together the way users do: several parse_string calls into ONE Library (line numbers restart with every
+    source), blocks moved to the end by remove + add, blocks built in code (own or no line number) added to parsed ones.
+    Returns (library, notes); an operation the Library itself refuses is left out and noted (not C16's subject)."""
+    import logging
+    import bibtexparser
+    from bibtexparser.library import Library
+    logging.disable(logging.CRITICAL)          # the splitter logs every block it gives up on
+    lib, notes, made = Library(), [], 0
+    for op in ops:
+        assert op[0] in ("parse", "move", "add"), op
+        try:
+            if op[0] == "parse":
+                lib = bibtexparser.parse_string("".join(PIECES[k] for k in op[1]), parse_stack=[], library=lib)
+            elif op[0] == "move":
+                if lib.blocks:
+                    b = lib.blocks[op[1] % len(lib.blocks)]
+                    lib.remove(b)
+                    lib.add(b)
+                    notes.append("moved")
+            elif op[0] == "add":
+                made += 1
+                lib.add(make_block(op[1], 1000 + made, op[2]))
+                notes.append("code-built")
+        except Exception as e:                 # the library refused the step: sort what is there
+            notes.append("step-refused:" + type(e).__name__)
+    return lib, notes
 
 
 def cname(b):
@@ -368,12 +488,23 @@ def impl(case):
     from bibtexparser.library import Library
     from bibtexparser.middlewares import SortBlocksByTypeAndKeyMiddleware
     inp = case["input"]
-    by_value = "items" in inp
-    if by_value:
+    by_value = "items" in inp or "lines" in inp or "ops" in inp
+    eq_stream = "items" in inp
+    notes = []
+    if eq_stream:
         order, preserve, times, tamper = inp["order"], inp["preserve"], inp["times"], None
         given = make_equal_blocks(inp["items"], inp["line"])
         seq = inp["items"]
         lib = Library(given)
+    elif "lines" in inp:
+        # identity is in raw / content; start_line is whatever the case says, unrelated to the position in the library
+        order, preserve, times, tamper = inp["order"], inp["preserve"], inp["times"], None
+        seq = inp["seq"]
+        lib = Library([make_block(u, i, inp["lines"][i]) for i, u in enumerate(seq)])
+    elif "ops" in inp:
+        order, preserve, times, tamper = inp["order"], inp["preserve"], inp["times"], None
+        lib, notes = assemble(inp["ops"])
+        seq = list(lib.blocks)
     else:
         seq, order, preserve, times, tamper = inp["seq"], inp["order"], inp["preserve"], inp["times"], inp["tamper"]
         lib = Library([make_block(u, i) for i, u in enumerate(seq)])
@@ -425,7 +556,34 @@ def impl(case):
     rec["tags"].append("order-len=%d" % len(order))
     if any(cname(b) == "DuplicateBlockKeyBlock" for b in lib.blocks):
         rec["tags"].append("has-duplicate-key-block")
-    if by_value:
+    if by_value and not eq_stream:
+        # do line numbers and library positions disagree, and does it matter (two units that tie on (type rank, key))?
+        blocks = lib.blocks
+        names = [CLASS_NAMES[c] for c in order]
+        ls = [b.start_line for b in blocks]
+        nums = [x for x in ls if x is not None]
+        if None in ls and nums:
+            rec["tags"].append("numbered-and-unnumbered-blocks")
+        if len(set(nums)) < len(nums):
+            rec["tags"].append("equal-start-lines")
+        if any(a > b for a, b in zip(nums, nums[1:])):
+            rec["tags"].append("start-lines-not-in-library-order")
+        us = units_of(blocks, preserve)
+
+        def sk(u):
+            c = cname(u[-1])
+            return (names.index(c) if c in names else len(names), key_of(u[-1]))
+        tie = False
+        for i in range(len(us)):
+            for j in range(i + 1, len(us)):
+                if sk(us[i]) == sk(us[j]) and any((x.start_line or 0) > (y.start_line or 0) for x in us[i] for y in us[j]):
+                    tie = True
+        if tie:
+            rec["tags"].append("tie-with-start-lines-against-library-order")
+        for n in sorted(set(notes)):
+            rec["tags"].append(n)
+        rec["summary"] = repr([(cname(b)[:6], b.start_line, (b.raw or "")[:12]) for b in cur.blocks])[:240]
+    if eq_stream:
         blocks = lib.blocks
         encs = [json.dumps(enc.enc_block(b)) for b in blocks]
         main = [i for i, b in enumerate(blocks) if not is_comment(b)]
@@ -445,7 +603,7 @@ def impl(case):
         if len(set(encs)) < len(encs) and any(is_comment(b) and encs.count(e) > 1 for b, e in zip(blocks, encs)):
             rec["tags"].append("equal-comments")
         rec["summary"] = repr([cname(b)[:6] + ":" + str(getattr(b, "key", getattr(b, "value", getattr(b, "comment", "")))) for b in cur.blocks])[:200]
-    elif seq and seq[-1] in COMMENTS and preserve:
+    elif not by_value and seq and seq[-1] in COMMENTS and preserve:
         rec["tags"].append("trailing-comment-run")
     if tampered:
         rec["tags"].append("tampered")
